@@ -2,8 +2,8 @@
 # usage: tools/confirm_seed.sh <dir with patch.diff demo_test.py> <name>
 # Confirms in a scratch worktree: demo passes clean, fails with patch, full pinned suite passes with patch.
 src=$1; name=$2; wt=/tmp/cs_$name
-git -C /repo worktree remove --force $wt 2>/dev/null; rm -rf $wt
-git -C /repo worktree add -q --detach $wt HEAD || exit 2
+flock /tmp/.verif_wt.lock git -C /repo worktree remove --force $wt 2>/dev/null; rm -rf $wt
+flock /tmp/.verif_wt.lock git -C /repo worktree add -q --detach $wt HEAD || exit 2
 cp $src/demo_test.py $wt/demo_test_seed.py
 for f in $src/*.py; do [ "$(basename $f)" != demo_test.py ] && cp $f $wt/; done   # helper modules of the demo
 run_demo() { (cd $wt && PYTHONPATH=$wt/src timeout 600 /venv/bin/python -m pytest -x -q -p no:cacheprovider demo_test_seed.py > $wt/demo.log 2>&1; echo $?); }
@@ -15,5 +15,5 @@ rm -f $wt/demo_test_seed.py $wt/demo.log; for f in $src/*.py; do rm -f $wt/$(bas
 summary=$(grep BASELINE /tmp/cs_$name.summary)
 head=$(git -C /repo rev-parse --short HEAD)
 echo "{\"name\":\"$name\",\"repo_head\":\"$head\",\"demo_exit_clean\":$clean,\"demo_exit_patched\":$patched,\"suite\":\"$summary\"}" > $src/confirm.json
-git -C /repo worktree remove --force $wt; rm -rf $wt /tmp/cs_$name.bl.xml /tmp/cs_$name.bl.log
+flock /tmp/.verif_wt.lock git -C /repo worktree remove --force $wt; rm -rf $wt /tmp/cs_$name.bl.xml /tmp/cs_$name.bl.log
 cat $src/confirm.json
